@@ -310,6 +310,17 @@ type mutation struct {
 	hard   bool             // mutates memory that is non-local regardless of callers
 }
 
+// libInPlace: library functions that modify their first argument in place (round p:
+// maps.DeleteFunc pruning a live index set under a read lock).
+var libInPlace = map[string]string{
+	"maps.DeleteFunc": "maps.DeleteFunc", "maps.Copy": "maps.Copy", "maps.Insert": "maps.Insert",
+	"slices.Delete": "slices.Delete", "slices.DeleteFunc": "slices.DeleteFunc", "slices.Insert": "slices.Insert",
+	"slices.Compact": "slices.Compact", "slices.CompactFunc": "slices.CompactFunc", "slices.Reverse": "slices.Reverse",
+	"slices.Sort": "slices.Sort", "slices.SortFunc": "slices.SortFunc", "slices.SortStableFunc": "slices.SortStableFunc",
+	"slices.Replace": "slices.Replace", "sort.Slice": "sort.Slice", "sort.SliceStable": "sort.SliceStable",
+	"sort.Strings": "sort.Strings", "sort.Ints": "sort.Ints",
+}
+
 // mutationsOf lists mutations in fn of containers/objects it did not allocate.
 func mutationsOf(c *core.Ctx, fn *ssa.Function) []mutation {
 	var out []mutation
@@ -331,6 +342,14 @@ func mutationsOf(c *core.Ctx, fn *ssa.Function) []mutation {
 		case *ssa.Call:
 			if b, ok := x.Call.Value.(*ssa.Builtin); ok && b.Name() == "delete" {
 				rec("delete from", x.Call.Args[0], x.Pos())
+			}
+			if b, ok := x.Call.Value.(*ssa.Builtin); ok && b.Name() == "clear" && len(x.Call.Args) == 1 {
+				rec("clear of", x.Call.Args[0], x.Pos())
+			}
+			// the standard library's in-place container operations write the container
+			// (or the backing array) handed to them as their first argument
+			if name, ok := libInPlace[an.CalleeName(&x.Call)]; ok && len(x.Call.Args) > 0 {
+				rec(name+" on", x.Call.Args[0], x.Pos())
 			}
 		case *ssa.Store:
 			root, _ := rootOfAddr(x.Addr)
